@@ -1023,8 +1023,16 @@ func (fr *Frame) appendModel(c ssa.CallInstruction, st *State, args []Term, rt t
 		hs := fe.heapSorts[h]
 		atNew := fe.elemRead(nh, hs, n, "qi", es)
 		atOld := fe.elemRead(cur, hs, s.S, "qi", es)
-		atAdd := fe.elemRead(cur, hs, add.S, fmt.Sprintf("(- qi (s_len %s))", s.S), es)
-		fe.assume(fmt.Sprintf("(forall ((qi Int)) (! (=> (and (<= 0 qi) (< qi %s)) (= %s (ite (< qi (s_len %s)) %s %s))) :pattern (%s)))", nl, atNew, s.S, atOld, atAdd, atNew))
+		if cnt, ok := fr.staticSliceLen(c.Common().Args[1]); ok && cnt <= 4 {
+			fe.assume(fmt.Sprintf("(forall ((qi Int)) (! (=> (and (<= 0 qi) (< qi (s_len %s))) (= %s %s)) :pattern (%s)))", s.S, atNew, atOld, atNew))
+			for i := 0; i < cnt; i++ {
+				fe.assume(fmt.Sprintf("(= (at_%s %s %s (+ (s_len %s) %d)) (select (select %s (s_base %s)) (+ (s_off %s) %d)))",
+					mangle(string(es)), nh, n, s.S, i, cur, add.S, add.S, i))
+			}
+		} else {
+			atAdd := fe.elemRead(cur, hs, add.S, fmt.Sprintf("(- qi (s_len %s))", s.S), es)
+			fe.assume(fmt.Sprintf("(forall ((qi Int)) (! (=> (and (<= 0 qi) (< qi %s)) (= %s (ite (< qi (s_len %s)) %s %s))) :pattern (%s)))", nl, atNew, s.S, atOld, atAdd, atNew))
+		}
 	}
 	return []Term{{n, k, rt}}
 }
